@@ -24,6 +24,7 @@ import (
 	"strconv"
 	"strings"
 	"sync"
+	"sync/atomic"
 	"time"
 
 	"github.com/piotrnar/gocoin/lib/btc"
@@ -240,8 +241,24 @@ func gFromScript(scr []byte, testnet bool) (s string, isNil bool, pm string) {
 	if a == nil {
 		return "", true, ""
 	}
+	// the address object itself is used to pay (change back to the script of an input): without going through the
+	// string it has to give the script it was made from
+	p2pk := (len(scr) == 67 && scr[0] == 0x41 && scr[66] == 0xac) || (len(scr) == 35 && scr[0] == 0x21 && scr[34] == 0xac)
+	func() {
+		if p2pk {
+			return // a pay-to-pubkey script is shown as the address of its key: another script by design
+		}
+		defer func() { recover() }() // "no script for this version" panics are judged elsewhere
+		if back := a.OutScript(); !bytes.Equal(back, scr) {
+			violation("script-object-roundtrip/"+fmt.Sprintf("len%d", len(scr)), "NewAddrFromPkScript(script).OutScript() differs from the script",
+				map[string]interface{}{"script": vlib.Hex(scr), "out_script": vlib.Hex(back), "address": a.String(), "testnet": testnet})
+		}
+		scriptObjectChecks.Add(1)
+	}()
 	return a.String(), false, ""
 }
+
+var scriptObjectChecks atomic.Int64
 
 // ---------------------------------------------------------------------------------------------
 // oracles
